@@ -1,0 +1,145 @@
+//! Verification hooks: read-only views of session state and of the inbound decoder.
+//!
+//! Only compiled with the `verif-hooks` feature. Nothing here changes client behaviour.
+
+use core::fmt::Write;
+
+use crate::de::ReceivedPacket;
+use crate::packets::Reason;
+use crate::properties::Properties;
+use heapless::Vec;
+
+/// Send progress of one queued outbound packet.
+#[derive(Debug, Copy, Clone, PartialEq, Eq)]
+pub enum VerifSend {
+    Write(usize),
+    Flush,
+    Sent,
+}
+
+/// Semantic session state.
+#[derive(Debug, Default, Clone, PartialEq)]
+pub struct VerifState {
+    pub next_packet_id: u16,
+    pub generation: u32,
+    pub session_present: bool,
+    pub session_resumed: bool,
+    pub used: usize,
+    pub capacity: usize,
+    /// (packet id, offset, len, state)
+    pub retained: Vec<(u16, usize, usize, VerifSend), 8>,
+    /// (packet id, reason, state)
+    pub release: Vec<(u16, u8, VerifSend), 8>,
+    /// (packet type, packet id, reason, state)
+    pub control: Vec<(u8, u16, u8, VerifSend), 8>,
+    pub inbound_qos2: Vec<u16, 8>,
+    pub send_quota: u16,
+    pub max_send_quota: u16,
+    pub maximum_packet_size: Option<u32>,
+    pub max_qos: Option<u8>,
+    pub keepalive_ms: u64,
+    pub next_ping_us: Option<u64>,
+    pub ping_timeout_us: Option<u64>,
+    pub reader_read_bytes: usize,
+    pub reader_packet_length: Option<usize>,
+}
+
+fn hex(out: &mut dyn Write, bytes: &[u8]) -> core::fmt::Result {
+    if bytes.is_empty() {
+        return out.write_str("-");
+    }
+    for byte in bytes {
+        write!(out, "{byte:02x}")?;
+    }
+    Ok(())
+}
+
+fn props(out: &mut dyn Write, properties: Option<&Properties<'_>>) -> core::fmt::Result {
+    match properties {
+        None => out.write_str("none"),
+        Some(properties) => hex(out, properties.verif_encoded().unwrap_or(&[])),
+    }
+}
+
+fn reason(out: &mut dyn Write, reason: &Reason<'_>) -> core::fmt::Result {
+    match reason.verif_parts() {
+        None => out.write_str(" rc=none props=none"),
+        Some((code, properties)) => {
+            write!(out, " rc={:02x} props=", u8::from(code))?;
+            props(out, properties)
+        }
+    }
+}
+
+/// Decode one complete inbound packet with the crate's decoder and describe the result.
+pub fn decode(buf: &[u8], out: &mut dyn Write) -> core::fmt::Result {
+    let packet = match ReceivedPacket::from_buffer(buf) {
+        Ok(packet) => packet,
+        Err(_) => return out.write_str("err"),
+    };
+    match packet {
+        ReceivedPacket::ConnAck(ack) => {
+            write!(
+                out,
+                "connack sp={} rc={:02x} props=",
+                ack.session_present as u8,
+                u8::from(ack.reason_code)
+            )?;
+            props(out, Some(&ack.properties))
+        }
+        ReceivedPacket::Publish(publish) => {
+            out.write_str("publish topic=")?;
+            hex(out, publish.topic.0.as_bytes())?;
+            match publish.packet_id {
+                Some(id) => write!(out, " id={id}")?,
+                None => out.write_str(" id=none")?,
+            }
+            write!(
+                out,
+                " qos={} retain={} dup={} props=",
+                publish.qos as u8, publish.retain as u8, publish.dup as u8
+            )?;
+            props(out, Some(&publish.properties))?;
+            out.write_str(" payload=")?;
+            hex(out, publish.payload)
+        }
+        ReceivedPacket::PubAck(ack) => {
+            write!(out, "puback id={}", ack.packet_id)?;
+            reason(out, &ack.reason)
+        }
+        ReceivedPacket::PubRec(ack) => {
+            write!(out, "pubrec id={}", ack.packet_id)?;
+            reason(out, &ack.reason)
+        }
+        ReceivedPacket::PubRel(ack) => {
+            write!(out, "pubrel id={}", ack.packet_id)?;
+            reason(out, &ack.reason)
+        }
+        ReceivedPacket::PubComp(ack) => {
+            write!(out, "pubcomp id={}", ack.packet_id)?;
+            reason(out, &ack.reason)
+        }
+        ReceivedPacket::SubAck(ack) => {
+            write!(out, "suback id={} props=", ack.packet_id)?;
+            props(out, Some(&ack._properties))?;
+            out.write_str(" codes=")?;
+            hex(out, ack.codes)
+        }
+        ReceivedPacket::UnsubAck(ack) => {
+            write!(out, "unsuback id={} props=", ack.packet_id)?;
+            props(out, Some(&ack._properties))?;
+            out.write_str(" codes=")?;
+            hex(out, ack.codes)
+        }
+        ReceivedPacket::Disconnect(disconnect) => {
+            // `reason_code()` defaults an absent code to Success; presence is visible in props.
+            write!(
+                out,
+                "disconnect rc={:02x} props=",
+                u8::from(disconnect.reason_code())
+            )?;
+            props(out, disconnect.properties())
+        }
+        ReceivedPacket::PingResp => out.write_str("pingresp"),
+    }
+}
